@@ -4,10 +4,13 @@
    every descriptor created is closed when Run returns, no descriptor is closed twice, only
    created descriptors are closed, a failing start has started no goroutine, Run reports Failed
    exactly when the start failed, and a successful start has started the expected goroutines.
-   The injectable calls are epoll_create1, eventfd, epoll_ctl ADD and socket(2) of a listener
-   (SSock): a failing socket call ends createListeners (Run returns Failed before the start) or
-   the reuse-port loop that wanted the listener; in both cases the listeners created so far by
-   that step are closed again, which is the [ok = false] case of [create_socks_inv].
+   The injectable calls are epoll_create1, eventfd, epoll_ctl ADD, socket(2) of a listener (SSock)
+   and the options applied to a listener just opened (SOpt): a failing socket call ends
+   createListeners (Run returns Failed before the start) or the reuse-port loop that wanted the
+   listener; in both cases the listeners created so far by that step are closed again, which is
+   the [ok = false] case of [create_socks_inv].  Failing options do the same, after the listener
+   they were meant for has been closed by initListener itself ([close_fresh_L_inv]: that descriptor
+   moves from "held" to "closed" and is not among the listeners returned).
 
    Proof shape.  [Inv s P Ls] relates the ledger to what the engine still holds:
      P   the poller descriptors held (epoll descriptors and eventfds): pairwise distinct, created,
@@ -120,6 +123,17 @@ Proof. intros [] s; reflexivity. Qed.
 
 Lemma create_gos : forall k s id s1, create k s = (id, s1) -> gos s1 = gos s.
 Proof. unfold create; intros k s id s1 E; inversion E; reflexivity. Qed.
+
+Lemma call_cls : forall f c s b s1, call f c s = (b, s1) -> cls s1 = cls s.
+Proof. intros f c s b s1 E. destruct c; cbn in E; inversion E; reflexivity. Qed.
+
+(* a descriptor just created has not been closed *)
+Lemma create_fresh : forall k s id s1 P Ls,
+  create k s = (id, s1) -> Inv s P Ls -> ~ In id (cls s1).
+Proof.
+  unfold create. intros k s id s1 P Ls E H. inversion E; subst; clear E. cbn.
+  intros Hc. apply (inv_cls_lt _ _ _ H) in Hc. lia.
+Qed.
 
 (* a new poller descriptor *)
 Lemma create_P_inv : forall k s id s1 P Ls,
@@ -323,10 +337,25 @@ Lemma create_socks_S : forall f m s,
   let '(bad, s0) := call f SSock s in
   if bad then ([], s0, false) else
   let '(id, s1) := create KSock s0 in
-  let '(ids, s2, ok) := create_socks f m s1 in (id :: ids, s2, ok).
+  let '(bad2, s1') := call f SOpt s1 in
+  if bad2 then ([], close id s1', false) else
+  let '(ids, s2, ok) := create_socks f m s1' in (id :: ids, s2, ok).
 Proof. reflexivity. Qed.
 
-(* whether or not a socket call fails: the listeners returned are held, nothing else was created *)
+(* a listener whose options cannot be applied is closed at once by initListener: it was held and
+   open, it is closed now and no longer held *)
+Lemma close_fresh_L_inv : forall s id P Ls,
+  Inv s P (id :: Ls) -> ~ In id (cls s) -> Inv (close id s) P Ls.
+Proof.
+  intros s id P Ls H Hn.
+  apply (Inv_weaken _ _ (id :: Ls)).
+  - apply close_L_inv; auto. left; reflexivity.
+  - intros x Hx. right; exact Hx.
+  - intros x [<-|Hx]; [right; left; reflexivity | left; exact Hx].
+Qed.
+
+(* whether or not a socket call (or the options of a socket) fails: the listeners returned are held,
+   nothing else is held: the socket whose options failed has been closed again *)
 Lemma create_socks_inv : forall f n s ids s' ok P Ls,
   create_socks f n s = (ids, s', ok) -> Inv s P Ls -> Inv s' P (ids ++ Ls) /\ gos s' = gos s.
 Proof.
@@ -339,11 +368,20 @@ Proof.
     destruct bad.
     { inversion E; subst; clear E. cbn [app]. auto. }
     destruct (create KSock s0) as [id s1] eqn:E1.
-    destruct (create_socks f m s1) as [[ids1 s2] ok2] eqn:E2.
-    inversion E; subst; clear E.
     pose proof (create_gos _ _ _ _ E1) as G1.
+    pose proof (create_fresh _ _ _ _ _ _ E1 E0) as N1.
     apply create_L_inv with (P := P) (Ls := Ls) in E1; auto.
-    destruct (IH _ _ _ _ _ _ E2 E1) as [I G]. split; [|congruence].
+    destruct (call f SOpt s1) as [bad2 s1'] eqn:E1'.
+    pose proof (call_gos _ _ _ _ _ E1') as G1'.
+    pose proof (call_cls _ _ _ _ _ E1') as C1'.
+    apply call_inv with (P := P) (Ls := id :: Ls) in E1'; auto.
+    destruct bad2.
+    { (* the options failed: the socket just created is closed *)
+      inversion E; subst; clear E. cbn [app]. split; [|cbn; congruence].
+      apply close_fresh_L_inv; auto. rewrite C1'. exact N1. }
+    destruct (create_socks f m s1') as [[ids1 s2] ok2] eqn:E2.
+    inversion E; subst; clear E.
+    destruct (IH _ _ _ _ _ _ E2 E1') as [I G]. split; [|congruence].
     apply (Inv_equiv _ _ _ _ I). intros x. cbn. rewrite !in_app_iff. cbn. tauto.
 Qed.
 
@@ -354,7 +392,9 @@ Proof.
   pose proof (call_none SSock s) as Hc.
   destruct (call None SSock s) as [bad s0]. cbn in Hc. subst bad.
   destruct (create KSock s0) as [id s1].
-  specialize (IH s1). destruct (create_socks None m s1) as [[ids s2] ok]. exact IH.
+  pose proof (call_none SOpt s1) as Hc'.
+  destruct (call None SOpt s1) as [bad2 s1']. cbn in Hc'. subst bad2.
+  specialize (IH s1'). destruct (create_socks None m s1') as [[ids s2] ok]. exact IH.
 Qed.
 
 Lemma run_event_loops_S : forall f L m first regs s,
@@ -813,6 +853,51 @@ Proof. vm_compute. repeat split; reflexivity. Qed.
    listeners is not reached *)
 Example ex_reactors_sock_fault_not_reached :
   summary (mkCfg false 2 2 (Some (mkFault SSock 2))) = (Started, 2, 3, 3, 8, 3).
+Proof. vm_compute. reflexivity. Qed.
+
+(* createListeners: the options of the very first listener cannot be applied: initListener closes
+   the socket it has just opened, Run ends before the start; 1 socket, 1 close (by initListener, at
+   once: nothing is left for the clean-up), nothing leaked, no duplicate close *)
+Example ex_create_listeners_opt_fails :
+  summary (mkCfg false 2 3 (Some (mkFault SOpt 0))) = (Failed, 1, 0, 0, 1, 0).
+Proof. vm_compute. reflexivity. Qed.
+
+Example ex_create_listeners_opt_fails_ledger :
+  let c := mkCfg false 2 3 (Some (mkFault SOpt 0)) in
+  leaked (fst (run c)) = [] /\ dup_closes (cls (fst (run c))) = 0 /\ cls (fst (run c)) = [0] /\
+  snd (after_start c) = false /\ gos (fst (after_start c)) = 0 /\ cls (fst (after_start c)) = [0] /\
+  leaked (fst (after_start c)) = [].
+Proof. vm_compute. repeat split; reflexivity. Qed.
+
+(* createListeners: the options of the 2nd listener fail: it is closed by initListener, the 1st
+   listener by createListeners' clean-up; 2 sockets, 2 closes, nothing leaked *)
+Example ex_create_listeners_opt_fails_second :
+  summary (mkCfg true 2 2 (Some (mkFault SOpt 1))) = (Failed, 2, 0, 0, 2, 0).
+Proof. vm_compute. reflexivity. Qed.
+
+Example ex_create_listeners_opt_fails_second_ledger :
+  let c := mkCfg true 2 2 (Some (mkFault SOpt 1)) in
+  leaked (fst (run c)) = [] /\ dup_closes (cls (fst (run c))) = 0 /\ cls (fst (run c)) = [0; 1] /\
+  snd (after_start c) = false /\ gos (fst (after_start c)) = 0 /\ cls (fst (after_start c)) = [1] /\
+  leaked (fst (after_start c)) = [0].
+Proof. vm_compute. repeat split; reflexivity. Qed.
+
+(* reuse-port, 3 loops, 2 listeners, the options of the 4th socket fail (loop 1's second listener):
+   it is closed by initListener, loop 1's first listener by the failing step, loop 0 by the clean-up;
+   4 sockets, 1 poller, 6 closes *)
+Example ex_reuseport_opt_fails :
+  summary (mkCfg true 3 2 (Some (mkFault SOpt 3))) = (Failed, 4, 1, 1, 6, 0).
+Proof. vm_compute. reflexivity. Qed.
+
+Example ex_reuseport_opt_fails_ledger :
+  let s := fst (run (mkCfg true 3 2 (Some (mkFault SOpt 3)))) in
+  leaked s = [] /\ dup_closes (cls s) = 0 /\ cls s = [2; 3; 1; 0; 4; 5].
+Proof. vm_compute. repeat split; reflexivity. Qed.
+
+(* reactors apply no listener options after createListeners: an options fault beyond the engine's
+   own listeners is not reached *)
+Example ex_reactors_opt_fault_not_reached :
+  summary (mkCfg false 2 2 (Some (mkFault SOpt 2))) = (Started, 2, 3, 3, 8, 3).
 Proof. vm_compute. reflexivity. Qed.
 
 Print Assumptions run_no_leak.
